@@ -57,6 +57,25 @@ Definition run (c : conf) (s : fs) : res * fs :=
       end
   end.
 
+(* directory mode: `read_dir()?.try_for_each(|c| self.run_recursively(..))` - the entries in the
+   order the directory lists them (sub-directories flattened; entries that are not grammars do
+   nothing), stopping at the first error.  `stop_at_error = false` is the variant that walks on and
+   returns the last entry's result. *)
+Fixpoint run_dir (stop_at_error : bool) (c : conf) (entries : list fs) : res * list fs :=
+  match entries with
+  | [] => (ROk, [])
+  | s :: rest =>
+    match run c s with
+    | (RErr, s1) =>
+      if stop_at_error then (RErr, s1 :: rest)
+      else match rest with
+           | [] => (RErr, [s1])
+           | _ => let '(r, rest') := run_dir stop_at_error c rest in (r, s1 :: rest')
+           end
+    | (ROk, s1) => let '(r, rest') := run_dir stop_at_error c rest in (r, s1 :: rest')
+    end
+  end.
+
 (* the histories of C18 *)
 Inductive op :=
 | OEdit (g : option text)      (* edit / remove / make unreadable the grammar file *)
